@@ -38,7 +38,7 @@ func (core *JApiCore) buildRule(d *directive.Directive) *jerr.JApiError {
 
 	r := enum.New(name, d.BodyCoords.Read())
 	if err := r.Check(); err != nil {
-		return jschemaToJAPIError(err, d)
+		return core.jschemaToJAPIError(err, d)
 	}
 
 	core.rules[name] = r
